@@ -139,5 +139,7 @@ pub(crate) trait Session {
         disposition: Disposition,
     ) -> Result<SessionFrame, Self::Error>;
 
-    fn on_outgoing_detach(&mut self, detach: Detach) -> SessionFrame;
+    /// Returns `None` if the detach is held back behind outgoing transfers that are
+    /// still waiting for the remote-incoming-window
+    fn on_outgoing_detach(&mut self, detach: Detach) -> Option<SessionFrame>;
 }
